@@ -75,7 +75,7 @@ def verdicts(cid, path):
 def run(ctx):
     rnd = ctx.rnd
     ctx.rule = ("generated CIDs (all 8 field types incl. Decimal and DateTime, checks, property rows) stored as CSV, ODS and XLSX and loaded through Cid(path); "
-                "generated tables of text cells (accepted and rejected values per field) stored as delimited text, ODS and XLSX and read under CIDs that differ only "
+                "generated tables of text cells (accepted and rejected values per field, rows of empty cells only) stored as delimited text, ODS and XLSX and read under CIDs that differ only "
                 "in their Format property; distinct = distinct (CID, table); non-trivial = every case")
     n = 40 if ctx.tier == "quick" else 400
     tmp = tempfile.mkdtemp(prefix="c17-")
@@ -110,6 +110,9 @@ def run(ctx):
             for _ in range(rnd.randint(1, 6)):
                 row = [rnd.choice(f["bad"]) if (f["bad"] and rnd.random() < 0.2) else (rnd.choice(f["good"] + ([""] if f["empty"] else []))) for f in fields]
                 table.append(row)
+            if rnd.random() < 0.5:
+                # a row of empty cells only, somewhere before the last row: every storage has to deliver it
+                table.insert(rnd.randrange(len(table) + 1), ["" for _ in fields])
             table.append([f["good"][0] for f in fields])  # a full last row keeps the used range rectangular
             checks = [["C", "unique", "IsUnique", fields[0]["name"]]] if rnd.random() < 0.5 else []
             results = {}
